@@ -869,11 +869,8 @@ def run_property(pid, tier):
         extra = dict(extra or {}, huge_single_calls=huge_results)
         total_runs += len(huge_results)
     if be_results:
-        extra = dict(extra or {}, big_endian_host=be_results)
-        total_runs += 1
-    if False:
-        extra = dict(big_endian_host=be_results)
-        total_runs += 1
+        extra = dict(extra or {}, interpreted_hosts=be_results)
+        total_runs += len(be_results)
     if stream_results:
         extra = dict(extra or {}, streamed_for_real=stream_results)
         total_runs += len(stream_results)
